@@ -1,12 +1,12 @@
 #!/bin/bash
 # usage: tools/sens_all.sh [<id> ...]   re-runs stored seeded changes against the checks named in their meta.json.
 # Patches /repo and reverts (never run while another check uses /repo). Prints one line per (change, property).
-cd /verif
+cd ${SENS_VERIF:-/verif}
 ids=("$@"); [ ${#ids[@]} -eq 0 ] && ids=($(ls seeded))
 miss=0
 for id in "${ids[@]}"; do
   props=$(python3 -c "import json;print(' '.join(json.load(open('seeded/$id/meta.json'))['caught_by'].keys()))")
-  out=$(SENS_BUDGET=${SENS_BUDGET:-40} tools/sens.sh seeded/$id/patch.diff $props 2>&1)
+  out=$(SENS_BUDGET=${SENS_BUDGET:-40} ${SENS_TOOL:-tools/sens.sh} seeded/$id/patch.diff $props 2>&1)
   for p in $props; do
     rc=$(echo "$out" | grep "^== $p " | sed 's/.*rc=//')
     v=$(echo "$out" | awk -v p="$p" '$0 ~ "^== "p" " {f=1;next} /^== /{f=0} f && /^violation:/ {print; exit}' | cut -c1-140)
